@@ -52,6 +52,16 @@ Input forms / magnitude slips (round 6):
   2e100), on data of the same scale (1e-100 .. 1e100) and far off it; leading / trailing / consecutive / interleaved;
   call forms of add_many.  Bound as in sum_bound plus the eigen-mode allowance per rounding step.
 * `C02.add.number_term`         the step add(Y, v) / add(v, Y) itself: dense(Y) + v entry by entry to rounding.
+
+Input forms (form audit):
+* `C02.forms.truncate`  the four contract clauses with the core list as cores of dtype float32 / int64 / int32 / dtypes mixed
+  between the cores (int64 cores next to non-integer float64 ones, float32 next to float64), read-only cores, read-only
+  non-contiguous views, a tuple (`gen.tt_form1`); e as numpy.float64 / numpy.float32 / 0-d array; the cap r as numpy.int64 /
+  int32 / float64 / float32 / 0-d float / 0-d int array / Python float (`gen.num_form1`); reference = float64 image of what is
+  passed; thresholds (1 +- 1e-6) included for the exact forms.  float32 cores: linear allowance 16 d r eps32 ||Y|| (the
+  unchanged library orthogonalises them in float32), no rank-minimality claim.
+* `C02.add_many.sum_bound` `form=`: Y_many and summands as tuples / read-only cores / read-only views, e / r / trunc_freq as
+  numpy.float64 / int64 / int32 / float32 / 0-d array.
 """
 import itertools, math
 import numpy as np
@@ -70,7 +80,9 @@ BOUNDS = ('d in {2,3,4} (thorough 5), modes 1..4 (thorough 5), ranks 1..4 incl. 
           '(all unfoldings) with clustered tails at 3e-11..1e-3 of the dominant value, d = 2..4, SVD mode down to budgets 1e-10 ||Y|| '
           '(linear allowance 64 d r eps ||Y||), eigen mode from 1e-5, thresholds +-1e-2; call forms of truncate / add_many; '
           'number summands in add_many / add: 0, +-0.0, negative, ints, |v| <= 1e-16 (boundary, denormal), 1e30, 2e100 on data '
-          'of scale 1e-100..1e100')
+          'of scale 1e-100..1e100; input forms: 11 core-list forms (float32 / int64 / int32 / mixed / read-only / views / tuple) x '
+          '4 (thorough 7) configurations x 4 contract clauses, e / r as numpy.float64 / float32 / int64 / int32 / 0-d arrays, '
+          'add_many with tuples, read-only summands and numpy numbers')
 
 EPS = np.finfo(float).eps
 E_LIST = (0.9, 0.3, 0.1, 1e-2, 1e-3, 1e-5, 1e-8, 1e-10)
@@ -174,6 +186,13 @@ def _unscale(Z, total):
     return [np.ldexp(G, q + (1 if k < rem else 0)) for k, G in enumerate(out)]
 
 
+EPS32 = float(np.finfo(np.float32).eps)
+# input forms of the call made by run() - set (and restored) by `C02.forms.truncate` only: form of the core list
+# (`gen.tt_form1`), of the number e and of the cap r (`gen.num_form1`)
+_FORM = {'form': None, 'eform': None, 'capform': None}
+F32_FORMS = ('f32', 'mix_f32a', 'mix_f32b', 'tuple_f32_ro')
+
+
 def run(n, r, seed, kind, scale, order, e, cap, stab, eigh, ex=0):
     """ex != 0: every core of the input carries the extra factor 2^ex (total 2^(d ex), possibly outside the double
     range - only meaningful with stab); the reference stays at the unscaled tensor and the result is scaled back
@@ -181,6 +200,9 @@ def run(n, r, seed, kind, scale, order, e, cap, stab, eigh, ex=0):
     below the threshold 1e-100 of core_stab); the result is scaled back by the total 2^-sum(ex) (see _unscale)."""
     c = Case()
     c.Y = make(n, r, seed, kind, scale, order)
+    form = _FORM['form']
+    if form:
+        c.Y = gen.tt_form1_values(c.Y, form)       # values that the form can hold; the reference is their float64 image
     c.d = len(n)
     c.D = gen.dense(c.Y)
     prof = isinstance(ex, (list, tuple))
@@ -199,10 +221,22 @@ def run(n, r, seed, kind, scale, order, e, cap, stab, eigh, ex=0):
         return None, SKIP('threshold outside [1e-4, 0.9] or not present')
     c.cap = cap
     c.rin = [1] + [G.shape[2] for G in c.Y]
-    snap = gen.snapshot(c.Y)
-    c.Z = teneva.truncate(c.Y, c.e, cap, use_stab=stab, is_eigh=eigh)
-    if gen.snapshot(c.Y) != snap:
-        return None, FAIL('input changed')
+    if form or _FORM['eform'] or _FORM['capform']:
+        Yin = gen.tt_form1(c.Y, form) if form else c.Y
+        e_in, cap_in = gen.num_form1(c.e, _FORM['eform']), gen.num_form1(cap, _FORM['capform'])
+        c.e, c.cap = float(e_in), float(cap_in)                       # float64 image of what is passed
+        snap = gen.snapshot(Yin)
+        c.Z = teneva.truncate(Yin, e_in, cap_in, use_stab=stab, is_eigh=eigh)
+        if gen.snapshot(Yin) != snap:
+            return None, FAIL('input changed')
+        if not isinstance(c.Z, list) or not all(isinstance(G, np.ndarray) and G.dtype.kind in 'fiu' for G in c.Z):
+            return None, FAIL('result is not a list of numeric cores')
+        c.Z = gen.tt_image1(c.Z)                                       # the dtype of the result is not part of the property
+    else:
+        snap = gen.snapshot(c.Y)
+        c.Z = teneva.truncate(c.Y, c.e, cap, use_stab=stab, is_eigh=eigh)
+        if gen.snapshot(c.Y) != snap:
+            return None, FAIL('input changed')
     msg = gen.wf(c.Z, n)
     if msg:
         return None, FAIL('result not well-formed: ' + msg)
@@ -215,7 +249,9 @@ def run(n, r, seed, kind, scale, order, e, cap, stab, eigh, ex=0):
     c.rk = [1] + [G.shape[2] for G in c.Z]
     c.err = float(np.linalg.norm(gen.dense(c.Z) - c.D))
     c.floor2 = 16.0 * c.d * max(c.rin) * EPS * c.nrm ** 2
-    c.capbinds = any(x >= max(1, int(cap)) for x in c.rk[1:-1]) and cap < 1e6
+    if form in F32_FORMS:       # the unchanged library orthogonalises float32 cores in float32: LINEAR allowance c d r eps32 ||Y||
+        c.floor2 = (16.0 * c.d * max(c.rin) * EPS32 * c.nrm) ** 2
+    c.capbinds = any(x >= max(1, int(c.cap)) for x in c.rk[1:-1]) and cap < 1e6
     return c, None
 
 
@@ -264,6 +300,8 @@ def _rank_minimal(**p):
         return res
     if c.e < 1e-4:
         return SKIP('e below the stated rounding floor 1e-4')
+    if _FORM['form'] in F32_FORMS:
+        return SKIP('float32 cores: the rank decisions are taken on float32 spectra')
     budget = c.e * c.nrm / math.sqrt(c.d - 1) * (1 - 5e-7)
     for k, s in enumerate(c.svs):
         t = tails(s)
@@ -315,6 +353,25 @@ def svd_rss(n, r, seed, kind, scale, order, e, cap, stab, ex=0):
 def svd_rank_min(n, r, seed, kind, scale, order, e, cap, stab, ex=0):
     """is_eigh=False, e >= 1e-4: no rank exceeds the smallest rank meeting the budget of its unfolding."""
     return _rank_minimal(n=n, r=r, seed=seed, kind=kind, scale=scale, order=order, e=e, cap=cap, stab=stab, eigh=False, ex=ex)
+
+
+
+_CHECKS = {'shape_ranks': _shape_ranks, 'error_bound': _error_bound, 'rss_optimal': _rss_optimal, 'rank_minimal': _rank_minimal}
+
+
+@clause('C02.forms.truncate', funcs=('transformation.truncate', 'svd.matrix_svd', 'svd.matrix_skeleton'))
+def forms_truncate(check, form, eform, capform, params):
+    """The four contract clauses (`check`) of truncate with the arguments in other INPUT FORMS: the core list with cores of
+    dtype float32 / int64 / int32 / mixed between the cores, read-only cores and views, as a tuple (`gen.tt_form1`); the
+    accuracy e as numpy.float64 / numpy.float32 / 0-d array; the cap r as numpy.int64 / int32 / float64 / float32 / 0-d
+    array / Python float (`gen.num_form1`).  The reference is the float64 image of what is passed.  float32 cores: the
+    unchanged library orthogonalises them in float32, so the rounding allowance is 16 d r eps32 ||Y|| (linear) and
+    rank-minimality is not claimed."""
+    _FORM.update(form=form, eform=eform, capform=capform)
+    try:
+        return _CHECKS[check](**params)
+    finally:
+        _FORM.update(form=None, eform=None, capform=None)
 
 
 @clause('C02.truncate.d2_exact_rank', funcs=('transformation.truncate', 'svd.matrix_svd', 'svd.matrix_skeleton'))
@@ -593,10 +650,13 @@ def truncate_wide_spectrum(d, nk, s, eb, at, seed, scale, cap, stab, eigh, form=
 # ----------------------------------------------------------------------------- add_many
 
 @clause('C02.add_many.sum_bound', funcs=('act_many.add_many', 'transformation.truncate'))
-def add_many_sum(n, r, seed, m, e, cap, freq, nums, scale, defaults=''):
+def add_many_sum(n, r, seed, m, e, cap, freq, nums, scale, defaults='', form=None):
     """add_many: well-formed result of the same shape, ranks <= max(1, int(r)); when the cap does not bind the
     distance to the dense sum is within the bound accumulated over the rounding steps (each e times the norm
-    of the running sum at that step).  `defaults` names one argument that is left at its documented default."""
+    of the running sum at that step).  `defaults` names one argument that is left at its documented default.
+    form (input forms): 'tuple' - Y_many and the summands are tuples / have read-only cores / read-only views in turn;
+    'np' - additionally e, r, trunc_freq as numpy.float64 / numpy.int64 / numpy.int32; 'np0' - as 0-d array / numpy.float32
+    cap / numpy.int64."""
     d = len(n)
     g = gen.rng('am', n, r, seed, m)
     items, dense_items = [], []
@@ -612,6 +672,14 @@ def add_many_sum(n, r, seed, m, e, cap, freq, nums, scale, defaults=''):
             dense_items.append(gen.dense(Y))
     if all(not isinstance(x, list) for x in items):
         return SKIP('number-only input (other clause)')
+    e0, cap0, freq0 = e, cap, freq
+    if form:
+        items = tuple(x if not isinstance(x, list) else
+                      (tuple(x) if j % 3 == 0 else gen.tt_form1(x, ('ro', 'ro_view', 'tuple')[j % 3])) for j, x in enumerate(items))
+        if form == 'np':
+            e, cap, freq = np.float64(e), (np.int64(cap) if cap < 1e6 and cap == int(cap) else np.float64(cap)), np.int32(freq)
+        elif form == 'np0':
+            e, cap, freq = np.array(e), np.float32(cap), np.int64(freq)
     snap = gen.snapshot(items)
     if defaults == 'e':                 # documented default accuracy 1e-10
         e = 1e-10
@@ -626,6 +694,8 @@ def add_many_sum(n, r, seed, m, e, cap, freq, nums, scale, defaults=''):
         Z = teneva.add_many(items, e, cap, trunc_freq=freq)
     if gen.snapshot(items) != snap:
         return FAIL('an input changed')
+    if form:                            # back to the plain numbers (float64 image of the cap)
+        e, cap, freq = (e if defaults == 'e' else e0), (cap if defaults == 'r' else float(cap)), (freq if defaults == 'freq' else freq0)
     msg = gen.wf(Z, n)
     if msg:
         return FAIL('result not well-formed: ' + msg)
@@ -1007,6 +1077,43 @@ def cases(tier, seed):
             for m in (2, 6, 16, 17):
                 yield 'C02.add_many.sum_bound', dict(n=n, r=[1, 3, 1], seed=m, m=m, e=1e-6, cap=1e12 if dflt != 'e' else 4, freq=2,
                                                      nums=[], scale=(1.0, 1e-7)[m % 2], defaults=dflt)
+    # input forms: truncate with the core list / e / r in other forms (every contract clause), add_many with tuples,
+    # read-only summands and numpy numbers
+    fshapes = [([3, 4], [1, 3, 1]), ([2, 3, 2], [1, 2, 3, 1]), ([3, 2, 2, 3], [1, 3, 4, 3, 1]), ([4, 1, 3], [1, 2, 2, 1])]
+    if big:
+        fshapes += [([2, 2, 2, 2, 2], [1, 2, 4, 4, 2, 1]), ([5, 4], [1, 4, 1]), ([1, 3, 2], [1, 1, 2, 1])]
+    eforms, capforms = (None, 'f64', 'f32', 'a0'), (None, 'i64', 'i32', 'f64', 'f32', 'a0', 'a0i', 'pyfloat')
+    fj = 0
+    for si, (n, r) in enumerate(fshapes):
+        for fi, form in enumerate((None,) + gen.TT_FORMS1):
+            for kind in (('int',) if form in ('i64', 'i32') else ('gauss', 'decay', 'int') if big else (('gauss', 'decay', 'int')[(si + fi) % 3],)):
+                thr = _thresholds(n, r, 800 + si, kind, 1.0) if form not in F32_FORMS + ('mix_fi', 'mix_if') else []
+                for ei, (e, cap) in enumerate(((0.3, 1e12), (1e-2, 2), (1e-3, 1e12), (0.05, 3)) + ((([thr[0][0], thr[0][1], 1], 1e12),
+                                                                                                   ([thr[-1][0], thr[-1][1], -1], 1e12)) if thr else ())):
+                    fj += 1
+                    if not big and form is not None and (fj % 2):
+                        continue
+                    stab, eigh = bool((fj // 2) % 2), bool((fj // 4 + ei) % 2)
+                    ef = eforms[fj % 4] if (form is None or fj % 3 == 0) else None
+                    cf = capforms[(fj // 2) % 8] if (form is None or fj % 3 == 1) else None
+                    if cap >= 1e6 and cf in ('i32',):
+                        cf = 'f64'
+                    if cf in ('i64', 'i32', 'a0i') and cap != int(cap):
+                        cf = 'f32'
+                    if form is None and ef is None and cf is None:
+                        continue
+                    base = dict(n=n, r=r, seed=800 + si, kind=kind, scale=1.0, order=('C', 'F', 'V')[fj % 3], e=e, cap=cap, stab=stab, eigh=eigh)
+                    for check in ('shape_ranks', 'error_bound', 'rss_optimal', 'rank_minimal'):
+                        yield 'C02.forms.truncate', dict(check=check, form=form, eform=ef, capform=cf, params=base)
+    for n in ([3, 4], [2, 3, 2]):
+        for fi, form in enumerate(('tuple', 'np', 'np0')):
+            for m, freq in ((5, 4), (9, 4), (4, 3), (17, 15)) + (((16, 15), (13, 6)) if big else ()):
+                for e, cap in ((1e-8, 1e12), (1e-6, 2.7), (1e-2, 3)):
+                    yield 'C02.add_many.sum_bound', dict(n=n, r=[1, 3, 1], seed=900 + m + freq, m=m, e=e, cap=cap, freq=freq,
+                                                         nums=[] if (m + fi) % 2 else [1], scale=(1.0, 1e-7, 1e4)[(m + fi) % 3], form=form)
+            for dflt in ('e', 'r', 'freq'):
+                yield 'C02.add_many.sum_bound', dict(n=n, r=[1, 3, 1], seed=6, m=6, e=1e-6, cap=1e12 if dflt != 'e' else 4, freq=2,
+                                                     nums=[], scale=1.0, defaults=dflt, form=form)
     # NUMBER summands of every kind among tensors of matching (and of far-off) scale: zero, +-0.0, negative, tiny
     # (|v| <= 1e-16: const's special branch, its boundary 1e-16, denormals), huge, Python ints; leading / trailing /
     # consecutive / interleaved positions; also the step add(Y, v), add(v, Y) itself
